@@ -319,7 +319,48 @@ def avl_large_case(rng, cid, cap=65534, lay='u32u32'):
            'ins 7 4', 'ins 8 5', 'get 7', 'low', 'ext 1', 'ins 9 6', 'capq', 'rem 5', 'ins 6 7', 'len']
     return Case(cid, 'avl', {'bits': 32, 'lay': lay, 'cap': cap, 'nrec': cap, 'mode': 'persistent'}, ops, {'stream': 'L'})
 
-def avl_cap255_case(rng, cid, lay=None, mode='persistent', rounds=4):
+def avl_growth_cycles(rng, cid, bits=None, lay=None, mode='persistent'):
+    """repeated growth in every combination of 'full / not full / emptied' and 'free list empty / not
+    empty' at the growth point, each followed by filling the tree completely"""
+    bits = bits or rng.choice([32, 8])
+    lay = lay or rng.choice(['u64u64', 'u32u32', 'u16u32', 'i64u16'])
+    cap = rng.choice([0, 1, 2, 3, 4])
+    ops = []
+    nxt = [1]
+    present = []
+    def ins():
+        k = nxt[0]; nxt[0] += 1
+        ops.append('ins %d %d' % (k, k % 50)); present.append(k)
+    cur = cap
+    for cycle in range(rng.randint(2, 5)):
+        # bring the tree into the chosen state
+        state = rng.choice(['full', 'notfull', 'full-after-remove', 'emptied', 'asis'])
+        if state in ('full', 'full-after-remove', 'emptied'):
+            while len(present) < cur:
+                ins()
+        if state == 'notfull' and present:
+            for _ in range(rng.randint(1, min(2, len(present)))):
+                k = present.pop(rng.randrange(len(present))); ops.append('rem %d' % k)
+        if state == 'full-after-remove' and present:
+            k = present.pop(rng.randrange(len(present))); ops.append('rem %d' % k); ins()
+        if state == 'emptied':
+            while present:
+                k = present.pop(rng.randrange(len(present))); ops.append('rem %d' % k)
+        k = rng.choice([1, 1, 2, 3])
+        ops.append('ext %d' % k); cur += k
+        if rng.random() < 0.3:
+            ops += ['openro', 'capq', 'len']
+        ops.append('fill 900000')
+        # use the new room completely, then try one more
+        while len(present) < cur:
+            ins()
+        ops += ['full', 'ins 800000 1', 'len']
+        if rng.random() < 0.5 and present:
+            k = present.pop(rng.randrange(len(present))); ops.append('rem %d' % k)
+    ops.append('fill 900000')
+    return Case(cid, 'avl', {'bits': bits, 'lay': lay, 'cap': cap, 'nrec': cap, 'mode': mode}, ops, {'stream': 'G'})
+
+def avl_cap255_case(rng, cid, lay=None, mode='persistent', rounds=4, last_first=None):
     """the 8-bit tree at the largest capacity it can be initialised with: fill completely (the
     bump cursor wraps), then rounds of removals that end with / start with the key living in the
     last slot handed out, and re-insertions"""
@@ -338,6 +379,10 @@ def avl_cap255_case(rng, cid, lay=None, mode='persistent', rounds=4):
         victims = rng.sample([k for k in pres if k != last_slot_key], min(m, len(pres) - 1))
         if last_slot_key in pres and rng.random() < 0.8:
             pos = rng.choice([0, len(victims), len(victims)])
+            if r == 0 and last_first is not None:
+                # the very first removal from the completely full tree (empty free list) is / is not
+                # the key living in the last slot handed out
+                pos = 0 if last_first else len(victims)
             victims.insert(pos, last_slot_key)
         for v in victims:
             ops.append('rem %d' % v); pres.remove(v)
